@@ -44,9 +44,9 @@ PROP = dict(
         "the adaptive integrator's own error indicator (Gauss-Kronrod 7/15 difference, conservative) is trusted; points where it gives up are labelled and skipped (never counted as agreement)",
     ],
     units=[
-        R("dist", "B", "./internal/stats", "TestC12Dist", (8000, 4), (60000, 16)),
-        R("beta", "B", "./internal/stats", "TestC12Beta", (8000, 2), (30000, 16)),
-        R("ttest", "B", "./internal/stats", "TestC12TTest", (3000, 5), (25000, 16)),
-        R("descr", "B", "./internal/stats", "TestC12Descr", (3000, 5), (25000, 16)),
+        R("dist", "B", "./internal/stats", "TestC12Dist", (40000, 4), (250000, 16)),
+        R("beta", "B", "./internal/stats", "TestC12Beta", (60000, 2), (200000, 16)),
+        R("ttest", "B", "./internal/stats", "TestC12TTest", (10000, 5), (70000, 16)),
+        R("descr", "B", "./internal/stats", "TestC12Descr", (10000, 5), (65000, 16)),
     ],
 )
